@@ -305,11 +305,11 @@ def wide_part(ck, box):
         if ck.violations:
             return
         ck.machinery_failure("no wide trace events recorded")
-    validate_wide(ck, events, "trace-wide.json")
+    rejected = validate_wide(ck, events, "trace-wide.json")
     ck.traces += len(events)
     ck.evaluations += len(events)
     ck.nontrivial += sum(1 for e in events if e["distinct"] > 1)
-    wide_rest(ck, events)
+    wide_rest(ck, events, rejected)
 
 
 def validate_wide(ck, events, fname):
@@ -326,9 +326,11 @@ def validate_wide(ck, events, fname):
     if not consumed or consumed[0]["consumed"] != len(events):
         ck.machinery_failure("wide trace not fully consumed: %s of %d" % (consumed, len(events)))
     rejected = {}
+    lines = set()
     for p in t.printed:
         if "reject" in p:
             e = events[p["reject"] - 1]
+            lines.add(p["reject"] - 1)
             g = rejected.setdefault((e["program"], p["clause"]), {"n": 0, "examples": []})
             g["n"] += 1
             if len(g["examples"]) < 2:
@@ -336,9 +338,10 @@ def validate_wide(ck, events, fname):
     for (site, clause), g in sorted(rejected.items()):      # one violation per (dtype / class, clause)
         ck.violation("trace-reject", {"n_cases": g["n"], "clause": clause, "examples": g["examples"]},
                      key={"site": site, "clause": clause})
+    return lines
 
 
-def wide_rest(ck, events):
+def wide_rest(ck, events, rejected=()):
     stat = {}
     for e in events:
         d = stat.setdefault(e["program"], {"events": 0, "with_colliding_indices": 0, "index_beyond_dtype": 0, "g_array": 0,
@@ -356,7 +359,9 @@ def wide_rest(ck, events):
     ck.sample({"kind": "recorded-wide-event", "event": {k: v for k, v in events[0].items() if k != "tr"}})
     # binding demonstration: two retained genotypes merged into one / a probability placed 2^16 cells away
     bad, want = [], []
-    for e in events:
+    for i, e in enumerate(events):
+        if i in rejected:           # the demonstration starts from lines the specification accepted
+            continue
         if not bad and len(e["out"]["post"]) > 2:
             x = json.loads(json.dumps(e))
             a = x["out"]["post"].pop()
